@@ -18,6 +18,7 @@ mod c08;
 mod c12;
 mod c10;
 mod c13;
+mod c20;
 
 use out::Out;
 
@@ -69,6 +70,7 @@ fn main() {
                 "c10" => c10::run(&args, &mut out),
                 "c13" => c13::run(&args, &mut out),
                 "c13-repro" => c13::repro(&args, &mut out),
+                "c20" => c20::run(&args, &mut out),
                 s => { eprintln!("unknown stream {s}"); std::process::exit(2); }
             }
             out.write(&args.out);
